@@ -29,6 +29,10 @@ pub fn main() {
         let p = |s: &str| u64::from_str_radix(s, 16).unwrap();
         let (func, jit, x) = (p(t[3]), p(t[4]), p(t[5]));
         SIM.with(|s| { let mut s = s.borrow_mut(); s.mem.clear(); s.log.clear(); s.jit = jit; s.mask32 = arch == "arm"; });
+        // optional last field `pre=<hex>`: what the function's first bytes ARE before it is patched (a landing pad, a branch, ...)
+        if let Some(h) = t.last().and_then(|x| x.strip_prefix("pre=")) {
+            SIM.with(|s| { let mut s = s.borrow_mut(); for i in 0..h.len() / 2 { let b = u8::from_str_radix(&h[2 * i..2 * i + 2], 16).unwrap(); s.mem.insert(func + i as u64, b); } });
+        }
         let r = std::panic::catch_unwind(|| {
             let src = fp(func).expect("null func");
             match (arch, kind) {
